@@ -465,7 +465,7 @@ class FSM(addons.AddonPersistence, block.SBlock):
                     "Forbidden event multiplication; "
                     + f"Two events ({self._next_event[0]} and {etype}) were generated "
                     + "while handling a single event")
-            self._next_event = (etype, data, newstate)
+            self._next_event = (etype, rodata, newstate)
             return True
 
         self._fsm_event_active = True
@@ -478,7 +478,9 @@ class FSM(addons.AddonPersistence, block.SBlock):
             assert self._next_event is None
             for _ in range(self._ct_chainlimit):
                 if self._next_event:
-                    # intermediate state: skip generated events and exit the state immediately
+                    # intermediate state: skip generated events and exit the state immediately;
+                    # from now on the chained event is the one whose data the actions see
+                    fsm_event_data.set(self._next_event[1])
                     self._run_cb('exit', self._state)
                     etype, data, newstate = self._next_event
                     self._next_event = None
